@@ -5,16 +5,17 @@ package http2
 // Verification hooks. With the verif build tag off they are empty and inlined
 // away; hooks_verif.go holds the instrumented versions.
 
-func verifForwarded()                          {}
-func verifLoopTop(strms, open, ring, held int) {}
-func verifLoopExit()                           {}
-func verifQueued(dropped bool)                 {}
-func verifDispatched()                         {}
-func verifServerConn(sc *serverConn)           {}
-func verifAcquire(kind string, p interface{})  {}
-func verifRelease(kind string, p interface{})  {}
-func verifClientEnq(kind string)               {}
-func verifClientDeq()                          {}
-func verifClientLoopExit(which string)         {}
-func verifYield(point string)                  {}
-func verifHeldBytes(strms Streams) int         { return 0 }
+func verifForwarded()                               {}
+func verifLoopTop(strms, open, ring, held int)      {}
+func verifLoopExit()                                {}
+func verifQueued(dropped bool)                      {}
+func verifDispatched()                              {}
+func verifServerConn(sc *serverConn)                {}
+func verifAcquire(kind string, p interface{})       {}
+func verifRelease(kind string, p interface{})       {}
+func verifClientEnq(kind string)                    {}
+func verifClientDeq()                               {}
+func verifClientLoopExit(which string)              {}
+func verifYield(point string)                       {}
+func verifHeldBytes(strms Streams) int              { return 0 }
+func verifDispatchedCtx(id uint32, ctx interface{}) {}
